@@ -136,3 +136,10 @@ package store
 //@   ensures result == nil ==> self.received == store(old(self.received), hash, true)
 //@   ensures result != nil ==> self.received == old(self.received)
 //@   modifies self.received
+
+// ---- sporks ---------------------------------------------------------------------------------------------------------------
+//@ model Momentum sporkActive map[arr]bool   // spork id -> enforced at the momentum this store is the state of
+//@ func Momentum.IsSporkActive(self, implemented) -> (active, err)
+//@   requires implemented != nil
+//@   ensures err == nil ==> active == self.sporkActive[implemented.SporkId]
+//@   modifies nothing
